@@ -140,7 +140,9 @@ class StmtMixin:
             v = o.val
             if th is not None and v.z is not None and v.tup is None and (v.th is None or hint_kind(v.th) in (None,) or
                                                                          (v.th.args and all(a.name == "Any" for a in v.th.args))):
+                lit_ = v.lit
                 v = Val(v.z, th=th)
+                v.lit = lit_
             elif th is not None and v.th is not None and v.th.name == "None":
                 v = Val(v.z, th=th)
             outs.extend(self.assign(o.st, node.target, v, node))
@@ -688,6 +690,23 @@ class StmtMixin:
 
     def for_over(self, node: ast.For, st: State, it: Val) -> List[Out]:
         lp = self.loop_contract(st, node)
+        # a list built by a literal and not touched since: iterate its original elements (unrolled)
+        if it.tup is None and it.lit is not None and it.z is not None:
+            r = V.r(it.z)
+            same = z3.is_int_value(z3.simplify(st.hread("$llen", r))) and z3.simplify(st.hread("$llen", r)).as_long() == len(it.lit)
+            if same:
+                items = st.hread("$litems", r)
+                for i_, e_ in enumerate(it.lit):
+                    try:
+                        ez = self.to_z(st, e_)
+                    except Unsupported:
+                        same = False
+                        break
+                    if not z3.simplify(z3.Select(items, i_)).eq(z3.simplify(ez)):
+                        same = False
+                        break
+            if same:
+                it = Val(tup=list(it.lit))
         # static tuple / literal: unroll
         if it.tup is not None:
             cur = [st]
